@@ -38,6 +38,8 @@ type runState struct {
 	nBools    int
 	occ       map[ssa.Instruction]int
 	steps     int
+	known     map[string]bool // literals already on the path condition
+	knownUp   *runState       // enclosing run state (merge regions)
 	pcSent    int // pc[:pcSent] is asserted in the solver
 	noCheck   int // >0 inside a merge region: no feasibility checks, nothing sent to the solver
 	curInstr  ssa.Instruction
@@ -102,6 +104,23 @@ func assertPC(t *term) {
 		return
 	}
 	rs.pc = append(rs.pc, t)
+	if rs.known == nil {
+		rs.known = map[string]bool{}
+	}
+	if t.op == "not" {
+		rs.known[t.args[0].String()] = false
+	} else if t.op != "dom" {
+		rs.known[t.String()] = true
+		if t.op == "and" {
+			for _, a := range t.args {
+				if a.op == "not" {
+					rs.known[a.args[0].String()] = false
+				} else {
+					rs.known[a.String()] = true
+				}
+			}
+		}
+	}
 	if rs.noCheck == 0 {
 		z3.send("(assert " + t.String() + ")")
 		rs.pcSent = len(rs.pc)
@@ -138,6 +157,15 @@ func choose(v *cvar, alts [][]bool) int {
 	rs.domains[v.id] = alts[0]
 	assertPC(&term{op: "dom", args: []*term{inSet(v, alts[0])}})
 	return 0
+}
+
+func (r *runState) lookupKnown(s string) (bool, bool) {
+	for q := r; q != nil; q = q.knownUp {
+		if v, ok := q.known[s]; ok {
+			return v, true
+		}
+	}
+	return false, false
 }
 
 func (r *runState) pending(key ssa.Instruction, n int) *decision {
@@ -214,6 +242,17 @@ func branch(c value) bool {
 		}
 		if x.w != 0 {
 			panic(unsupported{"branch on bit-vector term"})
+		}
+		if pend == nil {
+			// the literal (or its negation) is already on the path condition
+			if v, ok := rs.lookupKnown(x.String()); ok {
+				return v
+			}
+			if x.op == "not" {
+				if v, ok := rs.lookupKnown(x.args[0].String()); ok {
+					return !v
+				}
+			}
 		}
 		return branchTerm(x, key, n, pend)
 	case *union:
@@ -381,6 +420,7 @@ func mergeCallUncached(fn *ssa.Function, args []value, free []value) value {
 			depth: outer.depth, mapEpoch0: mapEpoch, pcSent: outer.pcSent}
 		inner.domains = append([][]bool(nil), it.doms...)
 		inner.pc = append([]*term(nil), outer.pc...)
+		inner.knownUp = outer
 		rs = inner
 		var ret value
 		func() {
